@@ -343,6 +343,21 @@ def table_rule(ctx, rule, repo, fo):
                        ("TargetCompID", "56"), ("SendingTime", "52"), ("PossDupFlag", "43"), ("OrigSendingTime", "122"), ("GapFillFlag", "123"), ("NewSeqNo", "36")):
         ctx.instance(rule, f"FTag.{name} == {want}", fo.enum_members("FTag").get(name) == want,
                      f"FTag.{name} is {fo.enum_members('FTag').get(name)!r}, the FIX tag number is {want}: frames are built / parsed with the wrong framing tag", loc(repo.cls("FTag")))
+    # value -> member conversion used by the decoder is the enum's exact lookup: no `_missing_` hook, no metaclass call override
+    for cls in ("FMsg", "FTag"):
+        c = repo.cls(cls)
+        hooks = [n.name for n in c.body if isinstance(n, (ast.FunctionDef, ast.AsyncFunctionDef)) and n.name in ("_missing_", "__new__", "_generate_next_value_")]
+        meta = next((unparse(k.value) for k in c.keywords if k.arg == "metaclass"), None)
+        if meta and meta in repo.classes:
+            hooks += [f"{meta}.{n.name}" for n in repo.classes[meta].body if isinstance(n, ast.FunctionDef) and n.name in ("__call__", "__getitem__", "__new__")]
+        ctx.instance(rule, f"{cls}[exact value lookup]", not hooks,
+                     f"{cls} customises the value -> member lookup ({hooks}): the decoder's {cls}(value) no longer maps exactly the FIX value to its member, so e.g. a custom "
+                     "message type that differs from a standard one only by case is decoded as the standard type", loc(c))
+    fm = fo.enum_members("FMsg")
+    want = {"HEARTBEAT": "0", "TESTREQUEST": "1", "RESENDREQUEST": "2", "REJECT": "3", "SEQUENCERESET": "4", "LOGOUT": "5", "LOGON": "A",
+            "EXECUTIONREPORT": "8", "ORDERCANCELREJECT": "9", "NEWORDERSINGLE": "D", "ORDERCANCELREQUEST": "F", "ORDERCANCELREPLACEREQUEST": "G"}
+    wrong = {k: (fm.get(k), v) for k, v in want.items() if fm.get(k) != v}
+    ctx.instance(rule, "FMsg[FIX 4.4 wire values of the types the library acts on]", not wrong, f"FMsg members carry the wrong MsgType characters: {wrong}", loc(repo.cls("FMsg")))
     ctx.extra["group_table"] = {"rows": len(rows), "nesting_chains": edges}
     if len(rows) < 20:
         raise AnalysisError(f"group table folded to only {len(rows)} rows")
